@@ -33,7 +33,18 @@ from qstatic.alg import Poly, P, is_number
 from qstatic.dom_sym import SymDomain, SymArr, Namespace, sym_real, mk, arrays_same, first_diff, wrap
 from qstatic.interp import Interp, ModelError, RepoRaise, Unsupported, PathExplorer
 from qstatic.src import AnalysisError
-from .common import run_guarded, short
+from .common import run_guarded as _run_guarded, short
+
+
+def run_guarded(fn):
+    """as common.run_guarded; a Python-level failure inside a library model caused by a spectrum operand is a
+    construct outside the analysable subset (clean ANALYSIS-ERROR), never an internal error"""
+    try:
+        return _run_guarded(fn)
+    except (TypeError, AttributeError) as e:
+        if "Spec" in str(e) or "SpecCond" in str(e):
+            raise Unsupported(f"operation on a spectrum outside the FFT model: {e}")
+        raise
 
 LEVEL = "other"
 EXPLANATION = ("Abstract interpretation of _pad_psf and the two BCCB builders over arrays of symbolic taps for every image / "
@@ -168,6 +179,53 @@ class Spec:
 
     conj = conjugate
 
+    # elementwise min / max with a scalar or another spectrum-shaped real array: a symbolic node
+    # ('smax' | 'smin', key, key) that is NOT equal to either operand, unless one operand provably
+    # dominates (difference syntactically non-negative, e.g. max(|H|^2 + lam, 0) with lam >= 0)
+    def minmax(self, name, o):
+        p = self._other(o)
+        if p is None:
+            raise Unsupported(f"np.{name}imum of a spectrum and a {type(o).__name__}")
+        nn = self.dom.poly_nonneg
+
+        def one(a, b):
+            if nn(a - b):                      # a >= b everywhere
+                return a if name == "max" else b
+            if nn(b - a):
+                return b if name == "max" else a
+            ka, kb = sorted((a.key(), b.key()), key=repr)
+            return Poly.atom(("s" + name, ka, kb))
+        try:
+            return self._mk(_ew(one, self.polys, p))
+        except ValueError as e:
+            raise ModelError(str(e))
+
+    def _cmp(self, op, o):
+        p = self._other(o)
+        if p is None:
+            return NotImplemented
+        return SpecCond(self.dom, _ew(lambda a, b: (op, a.key(), b.key()), self.polys, p), self.fshape)
+
+    def __lt__(self, o):
+        return self._cmp("lt", o)
+
+    def __le__(self, o):
+        return self._cmp("le", o)
+
+    def __gt__(self, o):
+        return self._cmp("gt", o)
+
+    def __ge__(self, o):
+        return self._cmp("ge", o)
+
+    def __eq__(self, o):
+        return self._cmp("eq", o)
+
+    def __ne__(self, o):
+        return self._cmp("ne", o)
+
+    __hash__ = object.__hash__
+
     def batch_index(self, idx):
         """numpy index on the logical array; the two frequency axes must be taken whole"""
         if not isinstance(idx, tuple):
@@ -195,6 +253,23 @@ class Spec:
         except IndexError as e:
             raise ModelError(str(e))
         return type(self)(self.dom, r if isinstance(r, np.ndarray) else _obj0(r), self.fshape)
+
+
+class SpecCond:
+    """elementwise comparison of spectrum-shaped values: only usable as the condition of np.where"""
+
+    __array_ufunc__ = None
+
+    def __init__(self, dom, conds, fshape):
+        self.dom, self.conds, self.fshape = dom, conds, tuple(fshape)
+
+    def __bool__(self):
+        raise Unsupported("truth value of an elementwise comparison of spectra")
+
+    def _no(self, *a):
+        raise Unsupported("boolean algebra on elementwise comparisons of spectra")
+
+    __and__ = __or__ = __invert__ = __rand__ = __ror__ = __xor__ = _no
 
 
 class ISpec(Spec):
@@ -233,6 +308,136 @@ class FftDomain(SymDomain):
         self.fft_calls = []
         self.fftns = Namespace("numpy.fft", fft2=self.fft2, ifft2=self.ifft2)
         self.np.fft = self.fftns
+        self.nonneg_atoms = {("lam",)}       # documented: lam >= 0
+        self._spec_aware_np()
+
+    SPEC_AWARE = {"conj", "conjugate", "abs", "absolute", "real", "imag"}
+
+    def _spec_aware_np(self):
+        """np.maximum / minimum / fmax / fmin / clip / where understand spectra; every other numpy model called with a
+        spectrum operand is a clean Unsupported (never a Python TypeError from inside a model)."""
+        ns = self.np.__dict__
+
+        def has_spec(args, kw):
+            return any(isinstance(x, (Spec, SpecCond)) for x in list(args) + list(kw.values()))
+
+        def guard(name, f):
+            def g(*a, **k):
+                if has_spec(a, k):
+                    raise Unsupported(f"np.{name} applied to a spectrum (outside the per-frequency algebra of the FFT model)")
+                return f(*a, **k)
+            g._wants_interp = getattr(f, "_wants_interp", False)
+            return g
+
+        def mm(name, orig):
+            def f(a, b, **k):
+                if not has_spec((a, b), {}):
+                    return orig(a, b, **k)
+                if k:
+                    raise Unsupported(f"np.{name}imum on spectra with keyword arguments")
+                sp, o = (a, b) if isinstance(a, Spec) else (b, a)
+                if isinstance(sp, ISpec) or isinstance(o, (ISpec, SpecCond)) or not isinstance(sp, Spec):
+                    raise Unsupported(f"np.{name}imum on an un-materialised ifft2 / a comparison")
+                return sp.minmax(name, o)
+            return f
+
+        def clip(a, a_min=None, a_max=None, **k):
+            if not has_spec((a, a_min, a_max), {}):
+                return orig_clip(a, a_min, a_max, **k)
+            if k or not isinstance(a, Spec) or isinstance(a, ISpec):
+                raise Unsupported("np.clip on spectra: unsupported form")
+            r = a
+            if a_min is not None:
+                r = r.minmax("max", a_min)
+            if a_max is not None:
+                r = r.minmax("min", a_max)
+            return r
+
+        def where(c, a=None, b=None):
+            if not has_spec((c, a, b), {}):
+                return orig_where(c, a, b) if a is not None or b is not None else orig_where(c)
+            if not isinstance(c, SpecCond) or a is None or b is None:
+                raise Unsupported("np.where on spectra: condition is not an elementwise comparison of spectra")
+            ref = a if isinstance(a, Spec) else b
+            if not isinstance(ref, Spec) or isinstance(ref, ISpec) or isinstance(a, ISpec) or isinstance(b, ISpec):
+                raise Unsupported("np.where on spectra: branches must be spectra / scalars")
+            if ref.fshape != c.fshape:
+                raise ModelError("operands could not be broadcast together")
+            pa, pb = ref._other(a), ref._other(b)
+            if pa is None or pb is None:
+                raise Unsupported("np.where on spectra: branch of unsupported type")
+
+            def one(cc, x, y):
+                return x if x.same(y) else Poly.atom(("swhere", cc, x.key(), y.key()))
+            try:
+                r = np.frompyfunc(one, 3, 1)(c.conds, pa, pb)
+            except ValueError as e:
+                raise ModelError(str(e))
+            return ref._mk(r if isinstance(r, np.ndarray) else _obj0(r))
+
+        orig_clip, orig_where = ns.get("clip"), ns.get("where")
+        special = {"maximum": mm("max", ns.get("maximum")), "fmax": mm("max", ns.get("fmax")),
+                   "minimum": mm("min", ns.get("minimum")), "fmin": mm("min", ns.get("fmin")), "clip": clip, "where": where}
+        def wrap_ns(nsd, prefix, special):
+            for name, f in list(nsd.items()):
+                if name.startswith("_") or name in self.SPEC_AWARE:
+                    continue
+                if isinstance(f, Namespace):
+                    if f is not self.fftns:
+                        wrap_ns(f.__dict__, prefix + name + ".", {})
+                elif name in special:
+                    nsd[name] = special[name]
+                elif callable(f) and not isinstance(f, type) and type(f).__name__ not in ("TypeModel", "DType"):
+                    nsd[name] = guard(prefix + name, f)
+
+        wrap_ns(ns, "", special)
+
+    def poly_nonneg(self, p):
+        """syntactic certificate that a real per-frequency expression is >= 0: every monomial has a positive coefficient
+        and is a product of |F|^2-pairs (F^e Fc^e), |S| atoms, declared non-negative scalars (lam), inverses of
+        non-negative expressions, and even powers of other real atoms"""
+        for m, c in p.terms.items():
+            if c < 0:
+                return False
+            exps = dict(m)
+            for a, e in m:
+                head = a[0] if isinstance(a, tuple) and a else None
+                if head in ("F", "Fc"):
+                    mate = ("Fc" if head == "F" else "F",) + a[1:]
+                    if exps.get(mate) != e:
+                        return False
+                elif head == "absS" or a in self.nonneg_atoms:
+                    continue
+                elif head == "inv":
+                    arg = self.inv_args.get(a[1])
+                    if arg is None or not (self.poly_nonneg(arg) or e % 2 == 0):
+                        return False
+                elif head in ("smax", "smin", "swhere", "re_ifft2") or e % 2 != 0:
+                    return False
+        return True
+
+    def compare(self, interp, op, a, b, node):
+        if isinstance(a, (Spec, SpecCond)) or isinstance(b, (Spec, SpecCond)):
+            if isinstance(a, (ISpec, SpecCond)) or isinstance(b, (ISpec, SpecCond)):
+                raise Unsupported("comparison of an un-materialised ifft2 / of a comparison")
+            r = op(a, b)
+            if r is NotImplemented or not isinstance(r, SpecCond):
+                raise Unsupported(f"comparison of a spectrum with a {type(b if isinstance(a, Spec) else a).__name__}")
+            return r
+        return super().compare(interp, op, a, b, node)
+
+    def unop(self, interp, op, v, node):
+        if isinstance(v, (Spec, SpecCond)):
+            try:
+                return op(v)
+            except TypeError:
+                raise Unsupported(f"unary operator {getattr(op, '__name__', op)} on a spectrum")
+        return super().unop(interp, op, v, node)
+
+    def truth(self, v):
+        if isinstance(v, (Spec, SpecCond)):
+            raise Unsupported("truth value of a spectrum")
+        return super().truth(v)
 
     def ext_module(self, name):
         if name == "numpy.fft":
